@@ -406,6 +406,15 @@ def make_cases(tier, rng, wide):
         cid = "c%05d" % n[0]
         cs.append(Case(cid, kind, impl, model, **kw))
 
+    # --- corpus first: minimized failing / interesting inputs of earlier runs
+    cp = os.path.join(common.VERIF, "corpus", PID, "cases.jsonl")
+    if os.path.exists(cp):
+        for line in open(cp):
+            line = line.strip()
+            if line:
+                o = json.loads(line)
+                add(o["kind"], o.get("impl"), o.get("model"), **o.get("kw", {}))
+
     # --- server handshake: every buf[1], reserved-byte patterns, magic, short reads
     for cfg in (0, 4096):
         for b1 in range(256):
